@@ -519,3 +519,34 @@ func H_C03_partial() {
 }
 
 var _ = register("H_C03_partial", H_C03_partial)
+
+// H_C09_jsonretry: a reader keeps the published JSON head list and loads from it twice; during the first load
+// the read of one head block fails (transiently). The second, fault-free load from the same value equals the
+// original log, and the value the caller holds is not modified by a load.
+func H_C09_jsonretry() {
+	h, L := storedLog()
+	vx.Assume(L.Len() > 0)
+	jl := L.ToJSONLog()
+	before := append([]cid.Cid{}, jl.Heads...)
+	victim := vx.Choice("victim", len(jl.Heads))
+	h.api.fault[jl.Heads[victim].String()] = faultAbsent
+	opts := newLoadOpts(h, -1, 1+vx.Choice("conc", vx.Param("CMAX", 2)), nil, 0)
+	N1, _ := ipfslog.NewFromJSON(ctx, h.api, h.ids[0], jl, opts.lo, opts.efo)
+	_ = N1
+	vx.Assert("C09", sameCids(jl.Heads, before), "a load does not modify the head list the caller passed")
+	delete(h.api.fault, jl.Heads[victim].String())
+	h.api.reads = nil
+	N2, err := ipfslog.NewFromJSON(ctx, h.api, h.ids[0], jl, opts.lo, opts.efo)
+	vx.Assert("C09", err == nil && N2 != nil, "loading a fully stored log succeeds")
+	if err != nil || N2 == nil {
+		return
+	}
+	vx.Assert("C09", sameSet(hashSet(entriesOf(N2)), hashSet(entriesOf(L))), "the rebuilt log has the same set of entries (second load from the same head list)")
+	vx.Assert("C09", sameSet(hashSet(N2.Heads().Slice()), hashSet(L.Heads().Slice())), "the rebuilt log has the same heads (second load from the same head list)")
+	if len(jl.Heads) > 1 {
+		vx.Cover("multi-head-retry")
+	}
+	vx.Cover("json-retry")
+}
+
+var _ = register("H_C09_jsonretry", H_C09_jsonretry)
